@@ -155,6 +155,9 @@ def main(argv=None):
     known = load_known()
     violations, known_hits, unconfirmed, inconclusive, errors, mismatches = [], [], [], [], [], []
     os.makedirs(os.path.join(ROOT, "replays"), exist_ok=True)
+    for fn in os.listdir(os.path.join(ROOT, "replays")):
+        if fn.startswith(prop + "-"):
+            os.remove(os.path.join(ROOT, "replays", fn))
     for i in ids:
         r = results[i]
         if "error" in r:
